@@ -439,6 +439,8 @@ def _funcref(eng, st, key):
 def _typeis(eng, st, v, name):
     if isinstance(v, FuncRef) and v.kind == "func":
         return v.target.node.name == name
+    if isinstance(v, ObjRef):          # exact (static) class of an object the function built or was handed
+        return v.cls.name == name and not getattr(v, "abstract", False)
     return False
 
 
@@ -888,6 +890,29 @@ def _tel_proof():
 
 
 LEMMA_PROOFS["L_tel"] = _tel_proof
+
+
+@spec("L_chain")
+def _l_chain(eng, st, F):
+    """Consecutive order implies pairwise order: F[q] < F[q+1] for all q  =>  F[q] < F[r] for all q < r (induction on r in LEMMA_PROOFS).
+    F is an int array or an int list (the changepoints of a sparse frame)."""
+    q, r = z3.Int(fresh_name("q")), z3.Int(fresh_name("r"))
+    n = to_z3(F.length if isinstance(F, Lst) else F.shape[0])
+    f = lambda x: to_z3(F.get(x))
+    prem = [z3.ForAll([q], z3.Implies(z3.And(0 <= q, q + 1 < n), f(q) < f(q + 1)), patterns=[f(q + 1)])]
+    concl = z3.ForAll([q, r], z3.Implies(z3.And(0 <= q, q < r, r < n), f(q) < f(r)), patterns=[z3.MultiPattern(f(q), f(r))])
+    return LemmaInst("L_chain", prem, concl)
+
+
+def _chain_proof():
+    F = z3.Function("F!CH", _I, _I)
+    n, q, r, i = z3.Ints("n!CH q!CH r!CH i!CH")
+    hyp = [z3.ForAll([i], z3.Implies(z3.And(0 <= i, i + 1 < n), F(i) < F(i + 1)), patterns=[F(i + 1)]), 0 <= q]
+    return [(".base", hyp + [q + 1 < n], F(q) < F(q + 1)),
+            (".step", hyp + [q < r, r + 1 < n, F(q) < F(r)], F(q) < F(r + 1))]
+
+
+LEMMA_PROOFS["L_chain"] = _chain_proof
 
 
 # ----------------------------------------------------------------------------- sums over lists built by append (C03: re-evaluating the reported anomalies)
